@@ -26,7 +26,10 @@ Prelude == <<
   [k |-> "macro", n |-> "mr", np |-> 1, body |-> <<[k |-> "repeat", cnt |-> 2, body |-> <<D(1, <<Par(1)>>)>>]>>],
   \* macros whose arguments are whole statements (two words separated by a blank)
   [k |-> "macro", n |-> "mx", np |-> 1, body |-> <<[k |-> "pstmt", i |-> 1], [k |-> "pstmt", i |-> 1]>>],
-  [k |-> "macro", n |-> "my", np |-> 2, body |-> <<[k |-> "pstmt", i |-> 2], [k |-> "pstmt", i |-> 1]>>]
+  [k |-> "macro", n |-> "my", np |-> 2, body |-> <<[k |-> "pstmt", i |-> 2], [k |-> "pstmt", i |-> 1]>>],
+  \* comment characters inside quoted strings of a macro body and of a define: a;b  a//b  x;y
+  [k |-> "macro", n |-> "mq", np |-> 0, body |-> <<D(1, <<Str(<<97, 59, 98>>)>>), D(1, <<Str(<<97, 47, 47, 98>>), Num(3)>>)>>],
+  [k |-> "define", n |-> "KS", v |-> Str(<<120, 59, 121>>)]
 >>
 StmtArg(st) == [k |-> "stmt", s |-> st]
 
@@ -34,7 +37,7 @@ Args1 == {Num(7), Num(255), Ref("KA"), Ref("KC"), Sum(Ref("KA"), Num(1)), Num(-1
 Body ==
      {D(1, <<Ref("KA")>>), D(2, <<Ref("KB")>>), D(4, <<Ref("EA")>>), D(1, <<Sum(Ref("KA"), Num(3))>>), D(1, <<Num(9)>>),
       D(2, <<Ref("KB"), Ref("EA")>>), D(1, <<Ref("KB")>>)}
-  \cup {[k |-> "invoke", n |-> "m0", args |-> <<>>]}
+  \cup {[k |-> "invoke", n |-> "m0", args |-> <<>>], [k |-> "invoke", n |-> "mq", args |-> <<>>], D(1, <<Ref("KS")>>)}
   \cup {[k |-> "invoke", n |-> "m1", args |-> <<a>>] : a \in Args1}
   \cup {[k |-> "invoke", n |-> "mn", args |-> <<a>>] : a \in Args1}
   \cup {[k |-> "invoke", n |-> "mr", args |-> <<a>>] : a \in {Num(7), Ref("KA")}}
